@@ -120,6 +120,39 @@ def one(ctx: Ctx, M, call, dtypes):
     return True
 
 
+def one_draw(ctx: Ctx, M):
+    """a STOCHASTIC aggregator is evaluated exactly once per call: under a fixed seed, mtl_backward with Random deposits what
+    Constant(w) deposits, w being THE FIRST weight vector Random draws under that seed (an extra evaluation of the weighting —
+    for logging, for a shape probe — would consume that draw; a stateful aggregator would be stepped twice)"""
+    from fractions import Fraction
+    from torchjd.aggregation import Random
+    rng = ctx.rng
+    P = M.P
+    T = len(M.losses)
+    shared = sorted(P.reach_leaves(M.features))
+    tasks = [list(tl) for tl in M.task_leaves]
+    report = P.leaves()
+    pre = {k: None for k in report}
+    seed = rng.randrange(10 ** 6)
+    chunk = rng.choice([None, 1, 2])
+    torch.manual_seed(seed)
+    w = Random().weighting(torch.zeros(T, 1, dtype=torch.float64)).tolist()
+    e1, g1, _ = real_mtl(P, torch.float64, M.losses, M.features, tasks, shared, ("random", seed), chunk, False, pre, report)
+    e2, g2, _ = real_mtl(P, torch.float64, M.losses, M.features, tasks, shared, ("constf", w), chunk, False, pre, report)
+    ctx.case(("one-draw", tuple(P.describe()), seed, chunk), nontrivial=e1 is None)
+    ctx.count("one_draw_checked")
+    ok = e1 == e2
+    if ok and e1 is None:
+        for k in report:
+            a, b = g1[k], g2[k]
+            if (a is None) != (b is None) or (a is not None and any(abs(x - y) > Fraction(1, 10 ** 9) * max(abs(x), abs(y), 1) for x, y in zip(a, b))):
+                ok = False
+    if not ok:
+        ctx.violation(f"mtl_backward with Random under seed {seed} deposited {fmt_grads(g1)} (err={e1}); Constant with the first weight "
+                      f"vector Random draws under that seed ({[round(v, 6) for v in w]}) deposits {fmt_grads(g2)} (err={e2}): the aggregator was "
+                      f"not evaluated exactly once", {"program": P.describe(), "prog_sx": sx(P.to_sx()), "torch_seed": seed, "chunk": chunk})
+
+
 def main(ctx: Ctx):
     ctx.lean_gate()
     n = 300 if ctx.tier == "quick" else 40000
@@ -128,6 +161,8 @@ def main(ctx: Ctx):
         call = gen_call(ctx, M)
         dtypes = [torch.float64] if call["agg"][0] == "probe" or i % 3 else [torch.float64, torch.float32]
         one(ctx, M, call, dtypes)
+        if i % 10 == 0 and not (M.P.casts or M.P.big):
+            one_draw(ctx, M)
     return ctx.finish(
         rule="random trunk/heads P-int programs (1-3 shared leaves, 1-3 feature tensors of any shape, 1-4 heads "
              "with 0-2 own leaves, parameters shared by two tasks, unused features) x calls (explicit / defaulted / "
